@@ -104,6 +104,18 @@ theorem relational_correct {R : Type} [CommRing R] {o : Ops R} (ho : RingLike o)
     ((lookup f.unit ks).out j).eval o env = (f.specT ks j).eval o env :=
   Family.tree_syn_sound ho (all_ok f hf) htm hw hk hks hj env
 
+/-- matrix versions: `abs(m)` per element, and per column `equal` = all elements equal, `notEqual` = some element differs, with an
+epsilon `|a − b| ≤ ε` for all / `> ε` for some element of the column (scalar and per-column ε); compared in walk mode, so valid in
+every ordered field.  (`mix` of matrices is in `operators_correct`: `x (1 − a) + y a` per element.) -/
+theorem matrix_versions_correct {K : Type} [Field K] [LinearOrder K] [IsStrictOrderedRing K] {o : Ops K} (ho : OrderedEqLike o)
+    (f : Family) (hf : f ∈ families) (htm : f.treeMode = true) (hw : f.treeWalk = true) (hk : f.kind = .poly)
+    (ks : List Nat) (hks : ks ∈ f.keys) (j : Nat) (hj : j < f.nOut ks) (env : Nat → K) :
+    ((lookup f.unit ks).out j).eval o env = (f.specT ks j).eval o env :=
+  Family.walk_poly_sound ho (all_ok f hf) htm hw hk hks hj env
+
+example : f_mequal_e.treeWalk = true ∧ [4, 4, 3] ∈ f_mequal_e.keys ∧
+    ((lookup "mequal_e" [4, 4, 3]).out 0).leaves.length > 4 := by decide
+
 /-- non-vacuity: the clamp units branch, and the table covers 37 functions -/
 example : relFamilies.length = 61 ∧ ((lookup "v_clamp" [7, 4]).out 3).leaves.length > 1 ∧
     ((lookup "s_clamp" []).out 0).leaves.length > 1 := by decide +kernel
